@@ -255,7 +255,19 @@ class PoolGen:
             self.emit({"op": "Mode", "conn": k, "mode": "ack"})
         saved, self.ops = self.ops, []
         n = r.choice([2, 2, 3, 3, 4]) if not self.race else r.choice([3, 4, 5, 6, 7])
-        if wallets or (not self.race and r.random() < 0.25):
+        once = False
+        if wallets and self.race and r.random() < 0.6:
+            # several withdrawals of ONE wallet arriving one after the other while credit keeps coming in and
+            # (sometimes) the first settlement fails: whatever the schedule, no more than the wallet held is paid
+            w = r.choice(ACCTS)
+            saved.append({"op": "AddAccountBalance", "acct": w, "amt": 50})     # something to withdraw
+            for _ in range(r.choice([3, 4, 5, 6])):
+                if r.random() < 0.25:
+                    self.emit({"op": "AddAccountBalance", "acct": w, "amt": r.choice([50, 500])})
+                else:
+                    self.withdraw(w)
+            once = r.random() < 0.5
+        elif wallets or (not self.race and r.random() < 0.25):
             # wallets: linking and withdrawals (a withdrawal racing a keep-alive that credits the same
             # wallet may see part of the keep-alive: the pool's keep-alive is not one transaction)
             for ident in [r.choice(ACCTS) for _ in range(n)]:
@@ -287,6 +299,8 @@ class PoolGen:
             reqs.append(dup)
             if r.random() < 0.3:
                 reqs.append(dict(dup))
+        if once:
+            self.emit({"op": "SettleMode", "fail": False, "once": True})
         self.emit({"op": "Burst", "reqs": reqs})
 
     def step(self):
